@@ -39,6 +39,14 @@ class ValueOps:
         st.assume(mk_eq(c, sv.term), 'def')
         return SV(sv.kind, c, sv.ty)
 
+    def index_ok(self, cond, note, lineno):
+        """a subscript whose index must be in range: an obligation, unless the contract under verification lists IndexError
+        among the exceptions it lets escape -- then the normal path simply continues where the index was in range"""
+        if 'IndexError' in getattr(self, 'cur_raises', {}) and not self.spec_mode:
+            self.st.assume(cond, 'pc')
+            return
+        self.st.oblige(cond, note, lineno)
+
     def fail(self, exc, msg, lineno=0):
         """a point where python raises `exc`: allowed exit if the contract lists it, else an obligation"""
         if exc in getattr(self, 'cur_raises', {}) and not self.spec_mode:
@@ -337,7 +345,7 @@ class ValueOps:
         """drop the tags that the path condition already excludes / keep the one it asserts (syntactic)"""
         if len(kinds) <= 1:
             return kinds
-        pcs = {t for t, _ in self.st.pc} | set()
+        pcs = {t for t, _ in self.st.pc} | set(getattr(self, 'guards', []))
         for k in kinds:
             if is_tag(k, term) in pcs:
                 return [k]
@@ -550,7 +558,7 @@ class ValueOps:
             # symbolic index into a concrete spine
             n = len(sv.elems)
             if check:
-                st.oblige(mk_and(mk_le('0', idx.term), mk_lt(idx.term, int_lit(n))), 'index in range', lineno)
+                self.index_ok(mk_and(mk_le('0', idx.term), mk_lt(idx.term, int_lit(n))), 'index in range', lineno)
             if n == 0:
                 if check:
                     raise PathInfeasible()
@@ -570,11 +578,11 @@ class ValueOps:
         if idx.is_const and idx.const < 0:
             it = mk_add(n, int_lit(idx.const))
             if check:
-                st.oblige(mk_le(int_lit(-idx.const), n), 'negative index in range', lineno)
+                self.index_ok(mk_le(int_lit(-idx.const), n), 'negative index in range', lineno)
         else:
             it = idx.term
             if check:
-                st.oblige(mk_and(mk_le('0', it), mk_lt(it, n)), 'index in range', lineno)
+                self.index_ok(mk_and(mk_le('0', it), mk_lt(it, n)), 'index in range', lineno)
         ety = self.elem_ty(sv, idx.const if idx.is_const else None)
         res = self.elem_unbox(sv, "(at %s %s)" % (q, it), ety)
         df = sv.extra.get('deepfresh') if isinstance(sv.extra, dict) else None
@@ -617,6 +625,12 @@ class ValueOps:
             sv = self.unbox(t, ty)
         finally:
             st.pop_guard()
+        if len(classes) > 1 and hasattr(self, 'init_const'):
+            # a field that one of the possible classes sets once, to a constant (ExprOps.init_const): the heap agrees with it
+            for c in classes:
+                ic = self.init_const([c], attr)
+                if ic is not None and ic.is_const and ic.kind in ('bool', 'str', 'int', 'none'):
+                    st.assume(mk_implies(self.cls_in(obj.term, [c]), mk_eq(t, self.box(ic))), 'wf')
         if sv.kind in ('list', 'tuple', 'val') and sv.extra is None:
             sv = SV(sv.kind, sv.term, sv.ty, const=sv.const, elems=sv.elems, seq=sv.seq, owned=sv.owned, extra={'guard': g})
         df = obj.extra.get('deepfresh') if isinstance(obj.extra, dict) else None
@@ -656,7 +670,7 @@ class ValueOps:
             hc = snap.get(attr)
             if hc is None:
                 if attr not in st.decls.base_heap:
-                    st.heap_arr(attr)
+                    st.decls.base_heap[attr] = st.decls.global_const('H_' + attr, '(Array Int Val)')
                 hc = st.decls.base_heap[attr]
             guard = inblock(obj)
             x = mk_select(hc, obj)
